@@ -38,7 +38,7 @@ ALREADY EXPLORED (do NOT repeat these or close variants of them; earlier rounds 
 {ex}
 In particular do NOT produce: another cache / memoisation of a result; another `x or default` / truthiness test on a number; another value carried from one loop iteration to the next; another dropped unit conversion; another `break` / `continue` / early-return slip in a loop; another statement moved under a logging / verbose guard; another in-place mutation of a shared list through an alias; another operand typo in compare_reqs.
 Produce changes of a DIFFERENT nature: other functions / other clauses of the property. At least ONE of your two changes must live OUTSIDE the function(s) that obviously implement the property: in a helper, a utility, a parameter / loader class, a constructor or a data table that the property's code depends on (follow the call chain two or three levels down or up), so that the property breaks although its own code is untouched. Prefer, where you can: (i) a change in the ORDER of two operations, or an operation moved across a branch / loop boundary, (ii) a boundary or off-by-one in an index, a slice, a range or a comparison that only matters at an edge, (iii) a wrong-but-plausible sibling (east/west, previous/next, min/max, first/last, input/output, per-channel/total) at ONE of several sites, (iv) a shallow copy / alias where a copy is needed (or state left on a shared object), (v) an exception path or an early return that skips an update.
-IMPORTANT: never use `git stash` (the stash is shared between worktrees); use `git diff > file`, `git checkout -- gnpy`, `git apply file`.
+IMPORTANT: never use `pkill` / `killall` or kill processes you did not start by PID (other jobs run the same commands on this machine). Never use `git stash` (the stash is shared between worktrees); use `git diff > file`, `git checkout -- gnpy`, `git apply file`.
 
 HOW TO RUN THINGS
 - Python: /venv/bin/python. ALWAYS run from the worktree root (cd {wt}) so that `import gnpy` resolves to the worktree copy (check: /venv/bin/python -c "import gnpy; print(gnpy.__file__)" must print a path under {wt}).
